@@ -101,8 +101,11 @@ impl GLWEPublicKey<Vec<u8>> {
 
 impl<D: DataMut> ReaderFrom for GLWEPublicKey<D> {
     fn read_from<R: std::io::Read>(&mut self, reader: &mut R) -> std::io::Result<()> {
-        self.dist = Distribution::read_from(reader)?;
-        self.key.read_from(reader)
+        // Temporary first: `self` is only touched once the whole object has been read.
+        let dist: Distribution = Distribution::read_from(reader)?;
+        self.key.read_from(reader)?;
+        self.dist = dist;
+        Ok(())
     }
 }
 
